@@ -87,6 +87,7 @@ def run(tier, seed):
         failing = []
         failing += create_stream(ck, tmp, "create", 140 if not ck.deep else 1500)
         failing += stretch_stream(ck, tmp)
+        failing += hash_contract_stream(ck)
         failing += cli_stream(ck, tmp, 6 if not ck.deep else 40)
         ck.cov["rule"] = ("envelope descriptions generated from the tool's own type tables (vlib/gen_desc.py): every severable member "
                           "absent / inline / severed+present / severed+absent, 5 digest algorithms per field, supplied (wrong) digest "
@@ -143,6 +144,8 @@ def stretch_stream(ck, tmp):
     """Tune a reference URI so that the wrapped manifest length sits on each side of the header-width boundaries."""
     fails = []
     targets = [23, 24, 255, 256] + ([65535, 65536] if ck.deep else [65535])
+    # wrapped lengths (head + content) on both sides of multiples of common buffer sizes: the digest is over the WRAPPED bytes
+    targets += [w - 3 for w in ([4096, 8192] if not ck.deep else [4096, 8192, 12288, 16384, 32768])] + ([65536 - 5, 131072 - 5] if ck.deep else [])
     for tg in targets:
         for delta in (-1, 0, 1):
             desc = {"SUIT_Envelope_Tagged": {
@@ -169,7 +172,22 @@ def stretch_stream(ck, tmp):
                 if n < 0:
                     break
             # same for the severed install member (uri inside it)
-            desc["SUIT_Envelope_Tagged"]["suit-install"][0]["suit-directive-override-parameters"]["suit-parameter-uri"] = "v" * max(0, want - 12)
+            # same for the severed install member (uri inside it): tune its wrapped content length to the same target
+            def ilen(k):
+                desc["SUIT_Envelope_Tagged"]["suit-install"][0]["suit-directive-override-parameters"]["suit-parameter-uri"] = "v" * k
+                r = interp.run_impl(interp.impl_create, desc)
+                mem = cw.envelope_members(r[1])
+                return mem[20].content[1] - mem[20].content[0]
+            k = max(0, want - 12)
+            for _ in range(6):
+                got = ilen(k)
+                if got == want:
+                    break
+                k += want - got
+                if k < 0:
+                    k = 0
+                    break
+            desc["SUIT_Envelope_Tagged"]["suit-install"][0]["suit-directive-override-parameters"]["suit-parameter-uri"] = "v" * k
             ires = interp.run_impl(interp.impl_create, desc)
             mr = interp.model_batch(ck, [["create", desc, [], []]])[0]
             ck.count("stretch", (tg, delta), nontrivial=ires[0] == "ok", sample={"manifest_content_bytes": want})
@@ -181,6 +199,34 @@ def stretch_stream(ck, tmp):
                     break
     return fails
 
+
+
+def hash_contract_stream(ck):
+    """The theorems are about ANY hash function H and the model is run with hashlib as H: this stream ties the tool's hash
+    helper (SuitHash.hash, used for every digest) to that H on data lengths around the block sizes of the five algorithms
+    and around common buffer sizes."""
+    from suit_generator.suit.security import SuitHash
+    fails = []
+    names = {"cose-alg-sha-256": -16, "cose-alg-shake128": -18, "cose-alg-sha-384": -43, "cose-alg-sha-512": -44, "cose-alg-shake256": -45}
+    blocks = [64, 128, 136, 168, 4096, 8192] + ([65536, 1 << 20] if ck.deep else [65536])
+    lengths = sorted({0, 1, 55, 56} | {k * b + d for b in blocks for k in ((1, 2, 3) if b < 65536 else (1,)) for d in (-1, 0, 1)})
+    for name, cid in names.items():
+        for n in lengths:
+            data = bytes((i * 7 + n) % 256 for i in range(n))
+            try:
+                got = bytes.fromhex(SuitHash(name).hash(data))
+            except Exception as e:  # noqa: BLE001
+                got = f"{type(e).__name__}"
+            want = HASH[cid](data)
+            ck.count("hash_contract", (name, n), nontrivial=True, sample={"alg": name, "length": n})
+            if got != want:
+                fails.append({"input": {"algorithm": name, "data_length": n, "data": "bytes((i*7+n)%256 for i in range(n))"},
+                              "observed": f"SuitHash('{name}').hash of {n} bytes = {got.hex()[:24] if isinstance(got, bytes) else got}.. is not the {name} hash {want.hex()[:24]}..",
+                              "expected": "the declared hash of exactly those bytes"})
+                if not any(b[1] == "H oracle = SuitHash.hash" for b in ck.broken):
+                    ck.broken.append(("corr", "H oracle = SuitHash.hash", f"{name}, {n} bytes"))
+                break
+    return fails
 
 def cli_stream(ck, tmp, n):
     import yaml
@@ -226,6 +272,14 @@ def replay(path):
     inp = rec["input"]
     if inp is None:
         return run("quick", rec.get("seed", 0))
+    if "algorithm" in inp:
+        from suit_generator.suit.security import SuitHash
+        n = inp["data_length"]
+        data = bytes((i * 7 + n) % 256 for i in range(n))
+        cid = {"cose-alg-sha-256": -16, "cose-alg-shake128": -18, "cose-alg-sha-384": -43, "cose-alg-sha-512": -44, "cose-alg-shake256": -45}[inp["algorithm"]]
+        bad = bytes.fromhex(SuitHash(inp["algorithm"]).hash(data)) != HASH[cid](data)
+        print("REPRODUCED: SuitHash.hash differs from the declared algorithm" if bad else "not reproduced on the current tree")
+        return 1 if bad else 0
     for p, c in inp.get("files", {}).items():
         os.makedirs(os.path.dirname(p), exist_ok=True)
         with open(p, "wb") as fh:
